@@ -1,9 +1,48 @@
+import Driver.C01
 import Driver.C02
+import Driver.C03
+import Driver.C04
+import Driver.C05
+import Driver.C06
+import Driver.C07
+import Driver.C08
+import Driver.C09
+import Driver.C10
+import Driver.C11
+import Driver.C12
+import Driver.C13
+import Driver.C14
+import Driver.C15
+import Driver.C16
+import Driver.C17
+import Driver.C18
+import Driver.C19
+import Driver.C20
 open Scrapli Driver
 
+/-- one request line in, one answer line out; the first token selects the property handler -/
 def handle (line : String) : String :=
   match (line.splitOn " ") with
+  | "c01" :: rest => handleC01 rest
   | "c02" :: rest => handleC02 rest
+  | "c03" :: rest => handleC03 rest
+  | "c04" :: rest => handleC04 rest
+  | "c05" :: rest => handleC05 rest
+  | "c06" :: rest => handleC06 rest
+  | "c07" :: rest => handleC07 rest
+  | "c08" :: rest => handleC08 rest
+  | "c09" :: rest => handleC09 rest
+  | "c10" :: rest => handleC10 rest
+  | "c11" :: rest => handleC11 rest
+  | "c12" :: rest => handleC12 rest
+  | "c13" :: rest => handleC13 rest
+  | "c14" :: rest => handleC14 rest
+  | "c15" :: rest => handleC15 rest
+  | "c16" :: rest => handleC16 rest
+  | "c17" :: rest => handleC17 rest
+  | "c18" :: rest => handleC18 rest
+  | "c19" :: rest => handleC19 rest
+  | "c20" :: rest => handleC20 rest
   | ["echo", h] => match fromHex h with
     | some b => toHex b
     | none => "bad-op"
